@@ -500,7 +500,7 @@ def strategies():
         return [[k, draw(st.sampled_from(K.POOL[k]))] for k in kws]
 
     pend = [0xFF00, 0xFF00, 0xFF01]
-    final = [0x0000, 0x0000, 0xB000, 0xA700, 0xA900, 0xC000, 0xFE00, 0x0122, 0x1234]
+    final = [0x0000, 0x0000, 0xB000, 0xB001, 0xB007, 0x0001, 0xA700, 0xA900, 0xC000, 0xFE00, 0x0122, 0x1234]  # incl. the Repository-Query-only non-final 0xB001: final for every other model
     n_final = [0x0000, 0x0000, 0x0107, 0x0116, 0x0001, 0x0110, 0x0112, 0x0122, 0x1234]
     dsk = ["valid", "valid", "valid", "garbage", "none", "empty"]
 
